@@ -56,3 +56,15 @@ Theorem mcstatus_new_matches_var_len data v : mcstatus_new data = Some v -> leng
 Proof.
   intros H. destruct (mcstatus_new_view data v H) as (_ & L & E0 & _). rewrite L. unfold var_len, mcstatus_mask. rewrite E0. reflexivity.
 Qed.
+
+Theorem chmask_new_view n data v : chmask_new n data = Some v -> length v = n /\ v = firstn n data.
+Proof.
+  unfold chmask_new. destruct (Nat.ltb (length data) n) eqn:E; [discriminate|]. intros H. injection H as <-.
+  apply Nat.ltb_ge in E. split; [apply firstn_length_le; exact E|reflexivity].
+Qed.
+Theorem chmask_new_total n data : (n <= length data -> exists v, chmask_new n data = Some v) /\ (length data < n -> chmask_new n data = None).
+Proof.
+  unfold chmask_new. split; intros H.
+  - destruct (Nat.ltb (length data) n) eqn:E; [apply Nat.ltb_lt in E; lia|eexists; reflexivity].
+  - apply Nat.ltb_lt in H. rewrite H. reflexivity.
+Qed.
